@@ -1,5 +1,7 @@
 import RawPanelVerif.Base.Wire
 import RawPanelVerif.Model.Topology
+import RawPanelVerif.Model.TopoJsonText
+import RawPanelVerif.Model.TopoAlias
 import RawPanelVerif.Spec.TopologySpec
 /-!
 Driver glue for the `topo.*` records (C13, C14).
@@ -15,6 +17,12 @@ RES  := ids n id^n | xy x y | txt hex | td TD | err msg:hex | hwc H | p P | tp T
 ```
 A look-up record's output is `RES json`; `topo.load T | json`; `topo.randomize seq | T json`; `topo.clean | T json`;
 `topo.roundtrip | ok T json same:01` or `err`.  `json` is the canonical text of `ToJSON()`.
+`topo.jsonraw | hex(ToJSON()) same:01` — the raw bytes of `ToJSON()` (compared with the model's text layer, `Model/TopoJsonText`),
+`same` = `JSONstring()` returned the same bytes.
+`topo.alias VIA GETTER args | alias had:01 changed:01 json` — VIA := sub | disp | ov, GETTER := type id | resolveA k | resolveAx H |
+resolveB k | resolveBid id | defid id: the getter is called, the harness writes through the returned value's `Sub[0]` / `Disp` /
+`TypeOverride` (`had` = there was something to write through), records whether `ToJSON()` changed, and undoes the write;
+`json` = `ToJSON()` after the undo.  The model side is the store-of-cells model (`Model/TopoAlias`).
 -/
 namespace RawPanelVerif.Driver.Topo
 open RawPanelVerif RawPanelVerif.Wire RawPanelVerif.Topo
@@ -55,7 +63,8 @@ def pTD : P TypeDef := do
   let w ← pInt; let h ← pInt; let out ← pHex; let inp ← pHex; let desc ← pHex; let ext ← pHex
   let subidx ← pInt; let rotate ← pTok; let render ← pHex; let disp ← pDisp
   let n ← pNat; let sub ← pMany pSub n
-  pure { w, h, out, inp, desc, ext, subidx, rotate, disp, sub, render }
+  -- zero-valued tokens are read as Go reads them (`0.0` is the value 0, printed `0`; `-0.0` prints `-0`)
+  pure { w, h, out, inp, desc, ext, subidx, rotate := rotCanon rotate, disp, sub, render }
 
 def pOv : P (Option TypeDef) := do
   let t ← tok
@@ -270,6 +279,35 @@ def stepOk (st : St) (cmd : String) (args : List String) (impl : String) : St ×
         | none => "err"
         | some mt => " ".intercalate (["ok"] ++ sTopo mt ++ [sTok (serialise mt), "1"])
       (st, answer (ms = " ".intercalate implToks) h ms [])
+  | "topo.jsonraw" =>
+    let ms := s!"{sHex (toJSONText st.t)} 1"
+    (st, answer (ms = " ".intercalate implToks) none ms [])
+  | "topo.alias" =>
+    match args with
+    | viaS :: getter :: rest =>
+      let via? : Option Alias.Via := match viaS with
+        | "sub" => some .sub | "disp" => some .disp | "ov" => some .ov | _ => none
+      let lay := Alias.layTopo st.t
+      -- (heap the topology is read in before the call, the look-up's result and heap)
+      let call? : Option (Alias.Heap × (Alias.ResR × Alias.Heap)) :=
+        if getter = "resolveAx" then
+          (run pHWc rest).map (fun c => let p := Alias.layHWc lay.1 c; (p.1, Alias.execRx p.1 lay.2 p.2))
+        else
+          (parseQuery ("topo." ++ getter) rest).map (fun q => (lay.1, Alias.execR lay.1 lay.2 q))
+      match via?, call? with
+      | some via, some (h0, r) =>
+        let o := Alias.aliasOutcome h0 lay.2 r via
+        let mj := serialise (Alias.absTopo r.2 lay.2)
+        let ms := s!"alias {showBool o.1} {showBool o.2} {sTok mj}"
+        let eq := ms = " ".intercalate implToks
+        let tags := [viaS, getter, if o.1 then "had" else "nothing", if o.2 then "changed" else "unchanged"]
+        match implToks with
+        | ["alias", _, _, j] =>
+          let ij := j.toList.map (fun c => c.toNat.toUInt8)
+          ({ st with prevJ := ij }, answer eq (if ij ≠ st.prevJ then some "mutated" else none) ms tags)
+        | _ => (st, answer eq (some "shape") ms tags)
+      | _, _ => (st, "ERR bad-record")
+    | _ => (st, "ERR bad-record")
   | _ =>
     match parseQuery cmd args with
     | none => (st, "ERR bad-record")
